@@ -3,7 +3,11 @@ package interp
 // The verif.* primitives as seen by the symbolic interpreter.
 
 import (
+	"fmt"
 	"go/types"
+	"strings"
+
+	"golang.org/x/tools/go/ssa"
 )
 
 func init() {
@@ -142,4 +146,139 @@ func init() {
 		}
 		return args[1]
 	}
+}
+
+// ---- function abstraction (uninterpreted-function summaries)
+//
+// verif.Abstract("pkg.Func") makes every later call of that function return a
+// fresh symbolic value that is consistent for identical arguments. This is a
+// sound over-approximation for validity (anything proved for an arbitrary
+// function value holds for the real one); counterexamples that depend on it do
+// not replay natively and are then reported as inconclusive, never as alarms.
+
+var abstracted = map[string]map[string]value{}
+
+type ufEntry struct {
+	args []value
+	res  sym
+}
+
+var ufEntries = map[string][]ufEntry{}
+
+func init() {
+	externals[VerifPkg+".Abstract"] = func(fr *frame, args []value) value {
+		name := cstr(args[0])
+		if abstracted[name] == nil {
+			abstracted[name] = map[string]value{}
+		}
+		noteStub("abstracted as an uninterpreted function: " + name)
+		return nil
+	}
+	resetHooks = append(resetHooks, func() { abstracted = map[string]map[string]value{}; ufEntries = map[string][]ufEntry{} })
+}
+
+func argKey(sb *strings.Builder, v value) {
+	switch v := v.(type) {
+	case sym:
+		if v.t.isConst() {
+			fmt.Fprintf(sb, "c%d/%d,", v.t.w, v.t.val)
+		} else {
+			fmt.Fprintf(sb, "t%d,", v.t.id)
+		}
+	case []value:
+		sb.WriteString("[")
+		for _, e := range v {
+			argKey(sb, e)
+		}
+		sb.WriteString("]")
+	case string:
+		fmt.Fprintf(sb, "%q,", v)
+	case symstr:
+		argKey(sb, []value(v))
+	default:
+		if k := kindOfValue(v); k != types.Invalid {
+			s := toSym(v)
+			fmt.Fprintf(sb, "c%d/%d,", s.t.w, s.t.val)
+			return
+		}
+		panic(unsupported(fmt.Sprintf("abstracted function with argument of type %T", v)))
+	}
+}
+
+// callAbstract returns (result, true) when fn is abstracted.
+func callAbstract(fn *ssa.Function, args []value) (value, bool) {
+	if len(abstracted) == 0 {
+		return nil, false
+	}
+	memo := abstracted[fn.String()]
+	if memo == nil {
+		return nil, false
+	}
+	var sb strings.Builder
+	for _, a := range args {
+		argKey(&sb, a)
+	}
+	k := sb.String()
+	if r, ok := memo[k]; ok {
+		return r, true
+	}
+	res := fn.Signature.Results()
+	if res.Len() != 1 {
+		panic(unsupported("abstracted function must have one result"))
+	}
+	b, ok := res.At(0).Type().Underlying().(*types.Basic)
+	if !ok {
+		panic(unsupported("abstracted function must return a scalar"))
+	}
+	w, _ := kindInfo(b.Kind())
+	if w < 0 {
+		panic(unsupported("abstracted function must return an integer or bool"))
+	}
+	t := CurPath.freshVar("uf:"+fn.Name(), w)
+	CurPath.S.define(t)
+	rs := sym{t, b.Kind()}
+	// functional congruence with earlier applications: equal arguments give equal results
+	for _, e := range ufEntries[fn.String()] {
+		if eq, ok := argsEqual(e.args, args); ok && !eq.isFalse() {
+			CurPath.addPC(tOr(tNot(eq), tEq(e.res.t, rs.t)))
+		}
+	}
+	ufEntries[fn.String()] = append(ufEntries[fn.String()], ufEntry{append([]value(nil), args...), rs})
+	r := value(rs)
+	memo[k] = r
+	return r, true
+}
+
+// argsEqual builds the term "a and b are equal argument tuples" (ok=false when shapes differ).
+func argsEqual(a, b []value) (*term, bool) {
+	if len(a) != len(b) {
+		return nil, false
+	}
+	r := tTrue
+	for i := range a {
+		switch x := a[i].(type) {
+		case []value:
+			y, ok := b[i].([]value)
+			if !ok || len(x) != len(y) {
+				return tFalse, true
+			}
+			e, ok := argsEqual(x, y)
+			if !ok {
+				return nil, false
+			}
+			r = tAnd(r, e)
+		case string, symstr:
+			if !isStringLike(b[i]) {
+				return nil, false
+			}
+			_, eq := seqCompare(asByteSeq(x), asByteSeq(b[i]))
+			r = tAnd(r, eq)
+		default:
+			if kindOfValue(x) == types.Invalid || kindOfValue(b[i]) == types.Invalid {
+				return nil, false
+			}
+			r = tAnd(r, tEq(toSym(x).t, toSym(b[i]).t))
+		}
+	}
+	return r, true
 }
